@@ -838,50 +838,62 @@ class Engine:
         vals = {int(v) for v, tb in targets if tb == b}
         if b == otherwise:
             vals |= {a[0] for a in E.args[1]} - {int(v) for v, _ in targets}
+        return self.refine_state(frame, st, E, vals)
+
+    def refine_state(self, frame, st, E, vals):
+        """narrow the joined values of st to the paths on which the enum value E is one of the alternatives `vals`"""
         sel = [a for a in E.args[1] if a[0] in vals]
         rest = [a for a in E.args[1] if a[0] not in vals]
         if not sel or not rest or any(not a[4] for a in sel):
             return st
-        out = None
-        for loc, v in st.items():
-            tgt = v.args[0] if v.op == "refv" else v
-            if tgt.op != "phi" or not isinstance(tgt.args[0], tuple) or len(tgt.args[0]) < 2:
-                continue
-            key = tgt.args[0]
+        def refine(v, depth=0):
+            """v with joins made at a callee's return narrowed to the paths compatible with the selected alternative"""
+            if depth > 4 or not is_t(v):
+                return v
+            if v.op == "refv":
+                r = refine(v.args[0], depth + 1)
+                return v if r is v.args[0] else mk("refv", r)
+            if v.op == "agg" and not str(v.args[0]).startswith("closure"):
+                fs = [refine(a, depth + 1) if is_t(a) else a for a in v.args[1:]]
+                return v if all(x is y for x, y in zip(fs, v.args[1:])) else mk("agg", v.args[0], *fs)
+            if v.op != "phi" or not isinstance(v.args[0], tuple) or len(v.args[0]) < 2:
+                return v
+            key = v.args[0]
             fk, J = key[0], key[1]
             fr = self.frames.get(fk) if isinstance(fk, str) else None
             if fr is None or fk == frame.key or not isinstance(J, int) or J in self._loop_heads(fr):
-                continue
+                return v
             inc = PHI.get(key) or {}
             if len(inc) < 2 or not all(isinstance(q, int) for q in inc):
-                continue
+                return v
             starts = []
-            ok = True
             for a in sel:
                 for (fo, bo) in a[4]:
                     bb = self._lift(fo, bo, fk)
                     if bb is None:
-                        ok = False
-                        break
+                        return v
                     starts.append(bb)
-                if not ok:
-                    break
-            if not ok or not starts:
-                continue
+            if not starts:
+                return v
             compat = set()
             for q in inc:
                 for s0 in starts:
                     if q == s0 or q in fr.cfg.reachable_from(s0, avoid=(J,)):
                         compat.add(q)
             if not compat or len(compat) == len(inc):
-                continue
+                return v
             cvals = [inc[q] for q in compat]
             if any(c is not cvals[0] for c in cvals[1:]):
-                continue
-            nv = cvals[0] if v.op != "refv" else mk("refv", cvals[0])
-            if out is None:
-                out = dict(st)
-            out[loc] = nv
+                return v
+            return refine(cvals[0], depth + 1)        # the chosen value may itself be a join made in a deeper callee
+
+        out = None
+        for loc, v in st.items():
+            nv = refine(v)
+            if nv is not v:
+                if out is None:
+                    out = dict(st)
+                out[loc] = nv
         return out if out is not None else st
 
     def possible_discr(self, d):
@@ -1167,6 +1179,14 @@ class Engine:
               "substs": call.get("substs"), "inlined": call.get("inlined", False), "model": call.get("model"),
               "local": call.get("local", False), "tc": call.get("tc", False), "diverges": t["target"] < 0,
               "post_facts": call.get("post_facts")}
+        pr = call.get("post_refine")
+        if pr is not None and res is not None and pr[0].op == "enum":
+            # unwrap()/expect() returned: the value was the success alternative; what its producer wrote on that path holds
+            ns = self.refine_state(frame, state, pr[0], {pr[1]})
+            if ns is not state:
+                for k_ in list(state.keys()):
+                    if ns.get(k_) is not state[k_]:
+                        state[k_] = ns[k_]
         ev["home"], ev["home_block"], ev["home_fn"] = self.home_of(frame, b)
         self.events[(frame.key, b, "t")] = ev
         self.cur = (frame, b)
